@@ -142,7 +142,8 @@ PROPS = {
             {"name": "registry", "args": ["__PID__"]},
             {"name": "vecgrid", "args": []},
             {"name": "exec", "args": [exact(q("scope C09")), "300" if tier == "quick" else "3000"]},
-            {"name": "pairs", "args": [exact(q("scope C09")), "24" if tier == "quick" else "240"]},
+            {"name": "pairs", "args": [exact(q("scope C09")), "60" if tier == "quick" else "400"]},
+            {"name": "unreg", "args": []},
         ],
         "signature": sig_exec,
         "rule": "the nine element-wise instructions on an exhaustive grid: length pairs (0..6)^2 (thorough (0..9)^2), equal and unequal, offsets -8..8 plus i32::MIN, MIN+1, MAX-1, MAX, elements from the boundary pools (extreme ints, non-finite floats, zero divisors); all 53 non-random vector instructions by NAME on generated states (empty and non-empty vectors, clamped indices); element-wise results compared with the README rule (overlapSpec), SORT with ordered-permutation; non-trivial = the state changed",
@@ -232,6 +233,7 @@ PROPS = {
         "scenarios": lambda tier, q: [
             {"name": "registry", "args": ["__PID__"]},
             {"name": "starve", "args": []},
+            {"name": "vecgrid", "args": []},
             {"name": "exec", "args": ["*", "60" if tier == "quick" else "600"]},
         ],
         "signature": sig_exec,
@@ -247,6 +249,7 @@ PROPS = {
             {"name": "run", "args": []},
             {"name": "parse", "args": []},
             {"name": "cmd", "args": []},
+            {"name": "unreg", "args": []},
         ],
         "signature": sig_exec,
         "rule": "every registered instruction, driven by NAME through InstructionSet, on generated states (rich and sparse stacks, boundary-biased operands, index-like integers, extreme ints, non-finite floats, empty and unequal vectors); programs from a token grammar over the full registry and from pushr's own random_code, on random initial states (every typed stack, INPUT queue incl. empty bodies, bindings, flags, varied configurations), single-stepped (<=120 steps, every transition validated) and run by the bounded run loop; program texts through the parser; the real EXEC.CMD on harmless operand tuples; a supervised worker with an address-space limit catches aborts; size-like operands of allocating instructions are capped at 2000 and code items at 3000 points (resource envelope); non-trivial = the state changed",
